@@ -205,6 +205,16 @@ def _with_alias(rng, case, p=0.05):
     return case
 
 
+def _alias_refused(case, counters):
+    """A creator that refuses a payload holding a symbolic link writes no metafile that could be wrong."""
+    lay = case["tree"]["layout"]
+    if "+dir-alias" in lay or "+file-alias" in lay:
+        counters["payload_with_link_refused"] = 1
+        counters["cases_with_directory_alias_link" if "+dir-alias" in lay else "cases_with_file_alias_link"] = 1
+        return True
+    return False
+
+
 def _judge(check, case, *args):
     if "+file-alias" in case["tree"]["layout"]:
         args[-1]["cases_with_file_alias_link"] = 1
@@ -253,9 +263,11 @@ class C01:
         if case.get("swallowed"):
             counters["cases_path_given_via_list_option"] = 1
         viol = []
-        if not oc.ok:
+        pl = 2 ** case["pl_exp"]
+        if not oc.ok and _alias_refused(case, counters):
+            pass
+        elif not oc.ok:
             viol.append(oracles.V("create-raised", exc=oc.excname(), tb=oc.tb[-1500:]))
-            pl = 2 ** case["pl_exp"]
         else:
             viol += _judge(oracles.check_v1, case, oc.raw, root, counters)
             pl = _recorded_pl(oc.raw) or 2 ** case["pl_exp"]
@@ -334,7 +346,9 @@ class C02:
                           progress=case["progress"], reuse=case.get("reuse"))
         viol = []
         pl = 2 ** case["pl_exp"]
-        if not oc.ok:
+        if not oc.ok and _alias_refused(case, counters):
+            pass
+        elif not oc.ok:
             viol.append(oracles.V("create-raised", exc=oc.excname(), tb=oc.tb[-1500:]))
         else:
             viol += _judge(oracles.check_v2, case, oc.raw, root, counters)
@@ -391,7 +405,9 @@ class C03:
             counters["created_with_align_option"] = 1
         viol = []
         pl = 2 ** case["pl_exp"]
-        if not oc.ok:
+        if not oc.ok and _alias_refused(case, counters):
+            pass
+        elif not oc.ok:
             viol.append(oracles.V("create-raised", exc=oc.excname(), tb=oc.tb[-1500:]))
         else:
             viol += _judge(oracles.check_hybrid_views, case, oc.raw, root, counters)
